@@ -167,7 +167,13 @@ def source_text(case):
         lines.append("        c.decoy(True)")
         lines.append(f"        {alt}(c)")
         lines.append("        c.decoy(False)")
-    lines.append(f"        {prev}(c)")
+    if case.get("via_import"):
+        # the top helper is called by module-level code of a module that is being imported (a pipeline-definition
+        # module): the enclosing frames then include the import system's own frames
+        lines.append(f"        c.top = {prev}")
+        lines.append("        c.import_pipeline(c)")
+    else:
+        lines.append(f"        {prev}(c)")
     if decoy is not None and not decoy["first"]:
         lines.append("        c.save()")
         lines.append("        c.decoy(True)")
@@ -197,7 +203,28 @@ def ok_fn(*a, **k):
     return 0
 
 
+_PIPELINE_COUNTER = [0]
+
+
 class Ctx:
+    def import_pipeline(self, c):
+        import builtins
+        import importlib
+        import sys
+        _PIPELINE_COUNTER[0] += 1
+        name = f"c19_pipeline_{os.getpid()}_{_PIPELINE_COUNTER[0]}"
+        with open(os.path.join(self.dir, name + ".py"), "w") as f:
+            f.write("import builtins\nc = builtins._c19_ctx\nc.top(c)\n")
+        builtins._c19_ctx = c
+        sys.path.insert(0, self.dir)
+        try:
+            importlib.invalidate_caches()
+            importlib.import_module(name)
+        finally:
+            sys.path.remove(self.dir)
+            sys.modules.pop(name, None)
+            del builtins._c19_ctx
+
     def decoy(self, on):
         if on:
             self._real = (self.boom, self.FailStore)
@@ -220,6 +247,7 @@ def cases(draw):
     return {"kind": draw(st.sampled_from(KINDS)), "depth": draw(st.integers(0, 8)), "decoy": decoy,
             "pads": draw(st.lists(st.integers(0, 3), min_size=1, max_size=5)),
             "genroute": draw(st.sampled_from([False, False, True])),
+            "via_import": draw(st.sampled_from([False, False, False, True])),
             "workers": draw(st.integers(1, 3)), "scheduler": draw(st.sampled_from([None, "default", "random"]))}
 
 
@@ -245,7 +273,8 @@ def check_case(ctx, case, record=True):
                  [f"kind:{case['kind']}", f"depth:{case['depth']}",
                   "truncated" if case["depth"] + 2 > MAX_TRACEBACK_DEPTH + 1 else "not_truncated"]
                  + (["second_route_to_site"] if case.get("decoy") else [])
-                 + (["site_inside_generator"] if case.get("genroute") else []))
+                 + (["site_inside_generator"] if case.get("genroute") else [])
+                 + (["created_while_importing_a_module"] if case.get("via_import") else []))
     d = tempfile.mkdtemp(prefix="c19-")
     try:
         path = os.path.join(d, "user_module.py")
@@ -254,6 +283,7 @@ def check_case(ctx, case, record=True):
         ns = {}
         exec(compile(open(path).read(), path, "exec"), ns)
         c = Ctx()
+        c.dir = d
         c.plan = uberjob.Plan()
         c.registry = uberjob.Registry()
         c.boom, c.returns_list, c.walk, c.FailStore = boom, returns_list, walk, FailStore
